@@ -1417,19 +1417,38 @@ def _isomers_done(w, gs):
     exp_views = [m.view() for m in d["expected"]]
     got = d["yielded"]
     cls = d["cls"]
+    # C16 speaks about the hash: the generator (which de-duplicates by hash) is
+    # only evidence.  An anomaly is reported under C16 iff the two isomers,
+    # built independently, really share a hash; a generator that misbehaves for
+    # another reason is counted, not reported (no listed property covers it).
+    R = w.R
+    hs = []
+    for m in d["expected"]:
+        try:
+            g = R.guarded(R.build, m)
+            hs.append(R.guarded(hash, g))
+        except Exception:  # noqa: BLE001
+            hs.append(None)
+    collide = hs[0] is not None and hs[0] == hs[1]
     if len(got) != 2:
-        w.report({"C16"}, f"isomers|{d['unit']}|yielded-{len(got)}-instead-of-2|{cls}",
-                 repr(d["src_model"].view())[:1500])
+        if collide:
+            w.report({"C16"}, f"isomers|{d['unit']}|yielded-{len(got)}-instead-of-2|{cls}",
+                     repr(d["src_model"].view())[:1500])
+        else:
+            w.stats["isomers_generator_anomaly_not_due_to_hash"] += 1
         return
     if got[0][1] is None or got[0][1] == got[1][1]:
-        w.report({"C16"}, f"isomers|{d['unit']}|hashes-equal|{cls}", "")
+        if collide:
+            w.report({"C16"}, f"isomers|{d['unit']}|hashes-equal|{cls}", "")
+        else:
+            w.stats["isomers_generator_anomaly_not_due_to_hash"] += 1
         return
     R = w.R
     left = list(exp_views)
     for rv, _h in got:
         hit = [ev for ev in left if not R.diff_views(rv, ev)]
         if not hit:
-            w.report({"C16"}, f"isomers|{d['unit']}|yielded-graph-is-not-an-isomer|{cls}", "")
+            w.stats["isomers_generator_anomaly_not_due_to_hash"] += 1
             return
         left.remove(hit[0])
     w.stats["isomers_checked"] += 1
